@@ -259,8 +259,9 @@ class CourierServer(metaclass=_CourierServerSingleton):
   def _shutdown_server(self):
     self._notify_alive(is_alive=False)
     with self._states_lock:
-      if self.has_started:
-        assert self._server is not None, 'Server is not built.'
+      # Not `self.has_started`: that also requires the thread of `start()`, but
+      # `run_until_shutdown()` may be called directly.
+      if self._server is not None and self._server.has_started:
         if self._shutdown_callback is not None:
           self._shutdown_callback()
         logging.info('chainable: %s', f'Shutting down server {self}')
